@@ -1103,3 +1103,8 @@ mod tests {
         assert_eq!(preferred_node_for(12345), 0);
     }
 }
+
+// Verification hook (/verif): contract proof harnesses; compiled only by `cargo kani`.
+#[cfg(kani)]
+#[path = "/verif/kani/topology.rs"]
+mod verif_kani;
